@@ -6,6 +6,6 @@ set -u
 if [ "${1:-}" = "--clean" ]; then rm -rf /tmp/fixwt-target; exit 0; fi
 WT=/tmp/fixwt.$$
 git -C /repo worktree add -q --detach "$WT" HEAD || exit 2
-( cd "$WT" && git apply "$1" ) || { git -C /repo worktree remove --force "$WT"; echo "PATCH DOES NOT APPLY"; exit 2; }
+[ ! -s "$1" ] || ( cd "$WT" && git apply "$1" ) || { git -C /repo worktree remove --force "$WT"; echo "PATCH DOES NOT APPLY"; exit 2; }
 ( cd "$WT" && CARGO_TARGET_DIR=/tmp/fixwt-target cargo nextest run --workspace --no-fail-fast --offline --test-threads ${T:-8} 2>&1 | grep -E "^\s+(FAIL|SIGABRT|SIGSEGV|Summary) |^error" | sort | uniq | tail -40 )
 git -C /repo worktree remove --force "$WT"
